@@ -2,7 +2,7 @@
 (* Statements only; the proofs are in Proofs/Heap.v and Proofs/EvalRel.v.      *)
 From TL Require Import Base.Base Model.Reader Model.Printer Model.Store Model.Eval Model.Init Model.Api.
 From TL Require Import Proofs.Heap Proofs.EvalRel.
-From TL Require Import Proofs.Build.
+From TL Require Import Proofs.Build Proofs.Seq.
 Local Open Scope list_scope.
 
 (* The list-building primitives the library functions are written with, on    *)
@@ -54,6 +54,13 @@ Proof.
   intros h ops h' a W H. split; [apply (build_fresh _ _ _ _ W H)|exact (build_leaves_old_objects _ _ _ _ W H)].
 Qed.
 Print Assumptions C11_constructions_write_no_old_cell.
+
+(* ... and what it builds is the list of the pushed objects, in order: the result  *)
+(* of mapcar / seq-filter / list is a new list holding exactly the values pushed    *)
+Theorem C11_pushes_build_the_list : forall h vs h' a, wfh h ->
+  build h (map BPush vs) = Ok (h', a) -> lrep h' a vs.
+Proof. exact build_pushes. Qed.
+Print Assumptions C11_pushes_build_the_list.
 
 (* non-vacuity: a literal inside a function body after appends and splices *)
 Definition F0 : fops :=
